@@ -5,5 +5,7 @@
 #include "rg_mcs_post.h"
 #elif defined(VERIF_EPOCH)
 #include "rg_epoch_post.h"
+#elif defined(VERIF_NATIVE_EPOCH)
+#include "native_epoch_post.h"
 #endif
 #endif
